@@ -602,6 +602,15 @@ fn block_shapes() -> Vec<PrintShape> {
         ("scoped-fn-in-file-included-twice", vec![("root", vec!["cnt = set 0", ">lib", ">lib", "o = g x", "d = set after"]), ("lib", vec!["fn <scope> g", "t = set ${1}${1}", "return ${t}", "end", "cnt = calc ${cnt} + 1"])]),
         ("alias-in-file-included-twice", vec![("root", vec!["cnt = set 0", ">lib", ">lib", "o = hello", "d = set after"]), ("lib", vec!["r${cnt} = alias hello set hi", "cnt = calc ${cnt} + 1"])]),
         ("label-in-file-included-twice", vec![("root", vec!["cnt = set 0", ">lib", ">lib", "d = set after"]), ("lib", vec!["cnt = calc ${cnt} + 1", "if less_than ${cnt} 5", "goto :again", "end", ":again x = set ${cnt}"])]),
+        // files that hold nothing (zero bytes), a blank, only a comment, listed first / between / last in a
+        // directive with other files: pasting nothing changes nothing around it
+        ("empty-file-first", vec![("root", vec![">empty after", "d = set ${x}"]), ("empty", vec![]), ("after", vec!["x = set included"])]),
+        ("empty-file-between", vec![("root", vec![">first empty after", "d = set ${w}${x}"]), ("first", vec!["w = set one"]), ("empty", vec![]), ("after", vec!["x = set two"])]),
+        ("empty-file-last", vec![("root", vec![">first empty", "d = set ${w}"]), ("first", vec!["w = set one"]), ("empty", vec![])]),
+        ("empty-file-alone-then-directive", vec![("root", vec![">empty", ">after", "d = set ${x}"]), ("empty", vec![]), ("after", vec!["x = set two"])]),
+        ("blank-file-between", vec![("root", vec![">first blank after", "d = set ${w}${x}"]), ("first", vec!["w = set one"]), ("blank", vec![" "]), ("after", vec!["x = set two"])]),
+        ("comment-file-between", vec![("root", vec![">first note after", "d = set ${w}${x}"]), ("first", vec!["w = set one"]), ("note", vec!["# nothing here"]), ("after", vec!["x = set two"])]),
+        ("empty-file-in-nested-directive", vec![("root", vec![">mid", "d = set ${w}${x}"]), ("mid", vec![">empty first", "x = set two"]), ("empty", vec![]), ("first", vec!["w = set one"])]),
         ("else-in-included", vec![("root", vec!["if false", "b = set never", ">mid", "c = set other", "end", "d = set after"]), ("mid", vec!["else"])]),
     ]
 }
@@ -853,7 +862,7 @@ pub fn crash_sig(_case: &Value, kind: &str) -> String {
     kind.to_string()
 }
 
-pub const RULE: &str = "include structures: four files r.ds, d1/a.ds, d1/d2/b.ds, c.ds; every assignment of an include directive (none / one file / two files / the same file twice, listed in one directive, at the first, middle or last line) to each file such that a file only includes files later in the order (two orders: descending into and climbing out of the nested directories), unreachable files normalised away, x path style {./relative, plain relative, absolute}. Faults (on every n-th structure): each include edge pointing to a missing file; a malformed line at every (reachable file, line); a trigger_error at every (reachable file, line); two handled errors in different files (the later one is the last error: its line and its file); pairs of faults (a missing edge or a malformed line in an included file together with a malformed last line of the root file: the one that comes first in the pasted text must be reported). Oracle: parse_file(root) minus directive instructions equals parse_text of the recursively pasted text; every instruction carries the file it came from (compared as canonical paths) and its line in that file; running the file and the pasted text gives the same emit trace and variables; a missing file fails the parse with ErrorReadingFile naming that file; a malformed line fails with its kind, its own line and its own file; get_last_error_line/_source name the included file and line. Scale cases: a chain of 12/40 (thorough 150) files each including the next across two directories, a chain through files whose names differ only in letter case, one directive listing 12/100 (thorough 1000) files, an included file of 5000 (thorough 200000) lines: instruction order, file and line of every instruction. Parse-time output: 8 include shapes with !print lines (a file included once, twice on two lines, twice on one line, three times, a diamond, a nested file twice, prints only below, another file between) x relative / absolute paths, run in a child process against the pasted text run in a child process: same exit status, same standard output. Blocks across files: 11 shapes (if / while / for / fn / nested blocks opened in one file and closed in another, the directive last in its file or not, else in an included file) x relative / absolute paths: final variables of the include structure equal those of the pasted text. Six more shapes: a file defining a function / a scoped function / an alias / a label included twice (two lines, one line, a diamond)";
+pub const RULE: &str = "include structures: four files r.ds, d1/a.ds, d1/d2/b.ds, c.ds; every assignment of an include directive (none / one file / two files / the same file twice, listed in one directive, at the first, middle or last line) to each file such that a file only includes files later in the order (two orders: descending into and climbing out of the nested directories), unreachable files normalised away, x path style {./relative, plain relative, absolute}. Faults (on every n-th structure): each include edge pointing to a missing file; a malformed line at every (reachable file, line); a trigger_error at every (reachable file, line); two handled errors in different files (the later one is the last error: its line and its file); pairs of faults (a missing edge or a malformed line in an included file together with a malformed last line of the root file: the one that comes first in the pasted text must be reported). Oracle: parse_file(root) minus directive instructions equals parse_text of the recursively pasted text; every instruction carries the file it came from (compared as canonical paths) and its line in that file; running the file and the pasted text gives the same emit trace and variables; a missing file fails the parse with ErrorReadingFile naming that file; a malformed line fails with its kind, its own line and its own file; get_last_error_line/_source name the included file and line. Scale cases: a chain of 12/40 (thorough 150) files each including the next across two directories, a chain through files whose names differ only in letter case, one directive listing 12/100 (thorough 1000) files, an included file of 5000 (thorough 200000) lines: instruction order, file and line of every instruction. Parse-time output: 8 include shapes with !print lines (a file included once, twice on two lines, twice on one line, three times, a diamond, a nested file twice, prints only below, another file between) x relative / absolute paths, run in a child process against the pasted text run in a child process: same exit status, same standard output. Blocks across files: 11 shapes (if / while / for / fn / nested blocks opened in one file and closed in another, the directive last in its file or not, else in an included file) x relative / absolute paths: final variables of the include structure equal those of the pasted text. Six more shapes: a file defining a function / a scoped function / an alias / a label included twice (two lines, one line, a diamond). Seven shapes with files that hold nothing (zero bytes), a blank or only a comment, first / between / last in a directive and in a nested directive";
 pub const ASSUMPTIONS: &[&str] = &["cyclic includes are outside the property (C07 probes them)", "the scratch directory is on a local file system without symlinks"];
 pub const EXHAUSTIVE: bool = true;
 pub const WALL_CAP_S: (u64, u64) = (55, 1500);
